@@ -355,11 +355,14 @@ def logical_to_mesh(case, ctx):
 # ----------------------------------------------------------------------------
 @clause('partition_spec_trees',
         strategy=lambda: st.lists(st.tuples(
-            st.sampled_from(['boxed', 'raw', 'nnx_sharded', 'nnx_plain']),
+            st.sampled_from(['boxed', 'raw', 'raw_numpy', 'raw_spec',
+                             'boxed_numpy', 'nnx_sharded', 'nnx_plain',
+                             'nnx_plain_numpy']),
             st.lists(st.sampled_from(['data', 'model', None]), min_size=1,
                      max_size=3)), min_size=1, max_size=5),
         quick=800, thorough=30000, quick_shards=4, shrink=False,
-        rule='trees mixing nn.Partitioned boxes, raw arrays, sharding-'
+        rule='trees mixing nn.Partitioned boxes, raw arrays (jax, NumPy, '
+        'ShapeDtypeStruct), sharding-'
         'annotated nnx Variables and plain Variables: nn.get_partition_spec / '
         'nnx.get_partition_spec return PartitionSpec(*names) for annotated '
         'leaves and PartitionSpec() for the others; non-trivial = both kinds '
@@ -370,17 +373,23 @@ def partition_spec_trees(case, ctx):
   for i, (kind, names) in enumerate(case):
     names = tuple(names)
     arr = jnp.ones((2,) * len(names))
-    if kind == 'boxed':
-      ltree[f'v{i}'] = nn.Partitioned(arr, names=names)
+    # array leaves come as jax arrays, host-side NumPy arrays (device_get,
+    # restored checkpoints) or abstract ShapeDtypeStructs (eval_shape)
+    if kind in ('boxed', 'boxed_numpy'):
+      ltree[f'v{i}'] = nn.Partitioned(np.asarray(arr) if kind.endswith(
+          'numpy') else arr, names=names)
       exp_l[f'v{i}'] = P(*names)
-    elif kind == 'raw':
-      ltree[f'v{i}'] = arr
+    elif kind in ('raw', 'raw_numpy', 'raw_spec'):
+      ltree[f'v{i}'] = {'raw': arr, 'raw_numpy': np.asarray(arr),
+                        'raw_spec': jax.ShapeDtypeStruct(arr.shape,
+                                                         arr.dtype)}[kind]
       exp_l[f'v{i}'] = P()
     elif kind == 'nnx_sharded':
       ntree[f'v{i}'] = nnx.Param(arr, sharding=names)
       exp_n[f'v{i}'] = P(*names)
     else:
-      ntree[f'v{i}'] = nnx.Param(arr)
+      ntree[f'v{i}'] = nnx.Param(np.asarray(arr) if kind.endswith('numpy')
+                                 else arr)
       exp_n[f'v{i}'] = P()
   if ltree:
     with sut('nn.get_partition_spec'):
